@@ -44,6 +44,7 @@ var (
 	tracked = map[string]bool{
 		"manager.Manager": true, "manager.pcapOverIPEndpoint": true, "manager.PcapOverIPEndpointInfo": true,
 		"builder.Builder":     true,
+		"manager.tag":         true, "query.TagDetails": true,
 		"converters.Converter": true, "converters.CachedConverter": true, "converters.Process": true,
 	}
 	// `go` statements whose goroutine class is ordered with itself:
@@ -452,7 +453,7 @@ func collect() {
 }
 
 func localOnlyCalled(pi *pkgInfo, as *ast.AssignStmt, lit *ast.FuncLit, encl *fnode) bool {
-	if as.Tok != token.DEFINE || len(as.Lhs) != len(as.Rhs) || encl == nil {
+	if (as.Tok != token.DEFINE && as.Tok != token.ASSIGN) || len(as.Lhs) != len(as.Rhs) || encl == nil {
 		return false
 	}
 	var obj types.Object
@@ -460,6 +461,12 @@ func localOnlyCalled(pi *pkgInfo, as *ast.AssignStmt, lit *ast.FuncLit, encl *fn
 		if r == lit {
 			if id, ok := as.Lhs[i].(*ast.Ident); ok {
 				obj = pi.info.Defs[id]
+				if obj == nil {
+					// f = func(){...} after `f := (func())(nil)`: a local that can call itself
+					if v, isVar := pi.info.Uses[id].(*types.Var); isVar && !v.IsField() && v.Parent() != pi.pkg.Scope() {
+						obj = v
+					}
+				}
 			}
 		}
 	}
@@ -476,9 +483,17 @@ func localOnlyCalled(pi *pkgInfo, as *ast.AssignStmt, lit *ast.FuncLit, encl *fn
 		if !isID || pi.info.Uses[id] != obj {
 			return true
 		}
+		if a, isAs := parents[id].(*ast.AssignStmt); isAs {
+			for _, l := range a.Lhs {
+				if l == ast.Expr(id) {
+					return true // the assignment of the literal itself
+				}
+			}
+		}
 		c, isCall := parents[id].(*ast.CallExpr)
 		if !isCall || c.Fun != id {
 			ok = false
+			return true
 		}
 		if _, isGo := parents[c].(*ast.GoStmt); isGo {
 			ok = false
@@ -777,6 +792,7 @@ type walker struct {
 	held  []lockT
 	emit   bool
 	target ast.Expr // the assignment target being walked
+	addr   ast.Expr // operand of & being walked
 	calls  map[*fnode][][]lockT // callee -> lock sets held (on the call's receiver) at each call site
 }
 
@@ -1086,8 +1102,11 @@ func (w *walker) expr(e ast.Expr, write bool) {
 		w.expr(v.X, false)
 	case *ast.UnaryExpr:
 		if v.Op == token.AND {
-			// &x.f: whoever holds the pointer may write
+			// &x.f: whoever holds the pointer may write the field; for the shared words of a tag
+			// bitmask the callee is not followed (index.SearchStreams only reads its limit mask)
+			w.addr = v.X
 			w.expr(v.X, isFieldSel(w.pi, v.X))
+			w.addr = nil
 		} else {
 			w.expr(v.X, false)
 		}
@@ -1214,10 +1233,14 @@ func (w *walker) effective(base string) []lockT {
 func (w *walker) selector(s *ast.SelectorExpr, write bool) {
 	if bl := bitField(w.pi, s); bl != "" {
 		w.expr(s.X, false)
-		if !w.emit || ast.Expr(s) == w.target {
-			return // x.f = v replaces the slice header of x, the shared words are untouched
+		if !w.emit {
+			return
 		}
-		inPlace := write
+		if ast.Expr(s) == w.target {
+			w.emitField(s, true) // x.f = v replaces the slice header of x, the shared words are untouched
+			return
+		}
+		inPlace := write && ast.Expr(s) != w.addr
 		if inPlace {
 			for _, l := range w.held {
 				if l.key == freshKey && l.base == exprStr(s) {
@@ -1237,9 +1260,10 @@ func (w *walker) selector(s *ast.SelectorExpr, write bool) {
 		for _, id := range ids {
 			rows = append(rows, access{File: pos.Filename, Line: pos.Line, Loc: bl, Write: inPlace, Ctx: id, Locks: []string{}, Func: w.fn.name})
 		}
+		w.emitField(s, write) // and the field itself (the slice header; Or/Set may reallocate it)
 		return
 	}
-	loc, fv := fieldLoc(w.pi, s)
+	loc, _ := fieldLoc(w.pi, s)
 	if loc == "" {
 		// not a tracked field: a write to x.f.g where x.f is a tracked struct-valued field writes x.f
 		sel := w.pi.info.Selections[s]
@@ -1256,6 +1280,15 @@ func (w *walker) selector(s *ast.SelectorExpr, write bool) {
 	}
 	w.expr(s.X, false)
 	if !w.emit {
+		return
+	}
+	w.emitField(s, write)
+}
+
+// emitField records the access to the tracked field selected by s
+func (w *walker) emitField(s *ast.SelectorExpr, write bool) {
+	loc, fv := fieldLoc(w.pi, s)
+	if loc == "" {
 		return
 	}
 	base := exprStr(s.X)
@@ -1315,10 +1348,25 @@ func (w *walker) contextsFor(s *ast.SelectorExpr, base string) []int {
 // local variables initialised with a fresh object of a tracked type; published at the first go
 // statement / channel send that mentions them
 func findFresh(fn *fnode) {
-	if fn.decl == nil {
-		return
+	if fn.lit != nil && (fn.role == "inline" || fn.role == "sync-arg") {
+		return // part of its parent
 	}
 	pi := fn.pkg
+	var body *ast.BlockStmt
+	var ftype *ast.FuncType
+	if fn.decl != nil {
+		body, ftype = fn.decl.Body, fn.decl.Type
+	} else {
+		body, ftype = fn.lit.Body, fn.lit.Type
+	}
+	// literals that run in place belong to this function, the others are functions of their own
+	descend := func(n ast.Node) bool {
+		if l, ok := n.(*ast.FuncLit); ok && l != fn.lit {
+			r := byLit[l].role
+			return r == "inline" || r == "sync-arg"
+		}
+		return true
+	}
 	fn.fresh = map[types.Object]token.Pos{}
 	isAlloc := func(e ast.Expr) bool {
 		switch v := e.(type) {
@@ -1334,8 +1382,8 @@ func findFresh(fn *fnode) {
 		}
 		return false
 	}
-	ast.Inspect(fn.decl.Body, func(n ast.Node) bool {
-		if _, ok := n.(*ast.FuncLit); ok {
+	ast.Inspect(body, func(n ast.Node) bool {
+		if !descend(n) {
 			return false
 		}
 		if as, ok := n.(*ast.AssignStmt); ok && as.Tok == token.DEFINE && len(as.Lhs) == len(as.Rhs) {
@@ -1345,6 +1393,58 @@ func findFresh(fn *fnode) {
 						fn.fresh[obj] = token.NoPos
 					}
 				}
+			}
+		}
+		return true
+	})
+	// a variable that HOLDS a tracked struct by value is storage of its own (a private copy)
+	ownCopy := func(id *ast.Ident) {
+		if id == nil || id.Name == "_" {
+			return
+		}
+		obj := pi.info.Defs[id]
+		if obj == nil {
+			return
+		}
+		if _, isPtr := obj.Type().(*types.Pointer); isPtr {
+			return
+		}
+		if n, ok := obj.Type().(*types.Named); ok && tracked[typeKey(n)] {
+			fn.fresh[obj] = token.NoPos
+		}
+	}
+	if ftype.Params != nil {
+		for _, f := range ftype.Params.List {
+			for _, n := range f.Names {
+				ownCopy(n)
+			}
+		}
+	}
+	ast.Inspect(body, func(n ast.Node) bool {
+		if !descend(n) {
+			return false
+		}
+		switch v := n.(type) {
+		case *ast.AssignStmt:
+			if v.Tok == token.DEFINE {
+				for _, l := range v.Lhs {
+					if id, ok := l.(*ast.Ident); ok {
+						ownCopy(id)
+					}
+				}
+			}
+		case *ast.RangeStmt:
+			if v.Tok == token.DEFINE {
+				if id, ok := v.Key.(*ast.Ident); ok {
+					ownCopy(id)
+				}
+				if id, ok := v.Value.(*ast.Ident); ok {
+					ownCopy(id)
+				}
+			}
+		case *ast.ValueSpec:
+			for _, id := range v.Names {
+				ownCopy(id)
 			}
 		}
 		return true
@@ -1362,7 +1462,7 @@ func findFresh(fn *fnode) {
 		})
 		return found
 	}
-	ast.Inspect(fn.decl.Body, func(n ast.Node) bool {
+	ast.Inspect(body, func(n ast.Node) bool {
 		switch n.(type) {
 		case *ast.GoStmt, *ast.SendStmt:
 			for obj, pub := range fn.fresh {
